@@ -1,4 +1,5 @@
 import XdsVerif.Driver.Util
+import XdsVerif.Driver.Hist
 import XdsVerif.Driver.C08
 import XdsVerif.Driver.C09
 import XdsVerif.Driver.C10
@@ -9,6 +10,10 @@ open Lean XdsVerif.Driver
 
 def dispatch (p : String) (j : Json) : Except String Verdict :=
   match p with
+  | "C01" => Hist.check "C01" j
+  | "C02" => Hist.check "C02" j
+  | "C03" => Hist.check "C03" j
+  | "C04" => Hist.check "C04" j
   | "C08" => C08.check j
   | "C09" => C09.check j
   | "C10" => C10.check j
